@@ -90,8 +90,8 @@ void DataArray::appendData(DataType dtype, const void *data, const NDSize &count
         }
     }
 
-    // text and numbers cannot be converted into each other: refuse before the array is enlarged
-    if ((dtype == DataType::String) != (dataType() == DataType::String)) {
+    // text, booleans and numbers cannot be converted into each other: refuse before the array is enlarged
+    if (!data_types_convertible(dtype, dataType())) {
         throw std::invalid_argument("appendData: element type of the data cannot be converted to the element type of the DataArray");
     }
 
